@@ -359,6 +359,11 @@ func (c *Client) proposeTwoPartyChannel(
 	}
 
 	env, err := receiver.Next(ctx)
+	// Stop consuming responses as soon as the first one has been taken (or none
+	// will be). Further messages that match isResponse would otherwise pile up
+	// in the receiver while the channel is being set up and, once its buffer is
+	// full, block the relay for every other subscription of this client.
+	receiver.Close() //nolint:errcheck
 	if err != nil {
 		if pcontext.IsContextError(err) {
 			return nil, newRequestTimedOutError("channel proposal", err.Error())
